@@ -33,6 +33,9 @@ def rates(rnd, n_random):
     for e in range(1, 40):
         out.add(2.0 ** -e)
         out.add(10.0 ** -min(e, 30))
+    for e in range(40, 150, 3):           # down to the float32 subnormals (< 2**-126) and the smallest one, 2**-149
+        out.add(2.0 ** -e)
+    out |= {2.0 ** -126, 2.0 ** -127, 2.0 ** -149, 1e-38, 1.17e-38, 1.18e-38, 1e-39, 1e-41, 1e-44, 1.4e-45}
     for i in range(1, 100):
         out.add(i / 100.0)
     for p in list(out):
